@@ -5,6 +5,7 @@ package main
 import (
 	"fmt"
 	"go/token"
+	"math/rand"
 	"sort"
 	"strings"
 
@@ -111,6 +112,12 @@ func (b *gb) rule(name string, e *gexpr) {
 type gram struct {
 	rules map[string]*gexpr
 	order []string
+	// cycleNullable: what nullable() answers for a rule met again while it is being
+	// decided. That only happens on a left-recursive path, where "can it succeed
+	// without consuming" has no answer: false gives the rules that certainly
+	// re-enter themselves, true the rules that may (what a walk that treats a
+	// re-entered rule as non-consuming reports).
+	cycleNullable bool
 }
 
 func (g *gram) nullable(e *gexpr, visiting map[string]bool) bool {
@@ -143,7 +150,7 @@ func (g *gram) nullable(e *gexpr, visiting map[string]bool) bool {
 			return true // undefined rule: stub matches nothing… treated as nullable (Nil)
 		}
 		if visiting[e.S] {
-			return false
+			return g.cycleNullable
 		}
 		visiting[e.S] = true
 		defer func() { visiting[e.S] = false }()
@@ -332,8 +339,15 @@ func checkC15(c *Check) {
 		want    []string
 		err     string
 		silentW bool
+		may     []string // left-recursion warnings that are admissible beyond `want` (see gram.cycleNullable)
 	}
 	cases := diagCases()
+	// seeded random two/three-rule grammars over every operator
+	nRand := 200
+	if c.Tier == "thorough" {
+		nRand = 4000
+	}
+	cases = append(cases, randomDiagCases(c.Seed+11, nRand)...)
 	out := make([]res, len(cases))
 	parallel(len(cases), func(i int) {
 		d := cases[i]
@@ -365,6 +379,11 @@ func checkC15(c *Check) {
 			return
 		}
 		und, unu, lr := g.diagnostics()
+		g2 := &gram{rules: g.rules, order: g.order, cycleNullable: true}
+		_, _, lrMay := g2.diagnostics()
+		for _, n := range lrMay {
+			out[i].may = append(out[i].may, fmt.Sprintf("possible infinite left recursion in rule '%s'", n))
+		}
 		for _, n := range und {
 			out[i].want = append(out[i].want, fmt.Sprintf("rule '%s' used but not defined", n))
 		}
@@ -429,10 +448,26 @@ func checkC15(c *Check) {
 						miss = append(miss, strings.Replace(x, "DUPLICATE:", "a diagnostic for the second definition of ", 1))
 					}
 				}
+				mayS := map[string]bool{}
+				for _, x := range o.may {
+					mayS[x] = true
+				}
+				// once some rule certainly re-enters itself the grammar is ill-formed and whether
+				// a rule *behind* it can be reached without consuming has no answer (the
+				// re-entered rule never returns): further left-recursion reports are admissible
+				certain := false
+				for _, x := range o.want {
+					if strings.HasPrefix(x, "possible infinite left recursion") {
+						certain = true
+					}
+				}
 				for _, x := range o.got {
-					if !ws[x] {
+					if !ws[x] && !mayS[x] && !(certain && strings.HasPrefix(x, "possible infinite left recursion")) {
 						extra = append(extra, x)
 					}
+				}
+				if len(miss) == 0 && len(extra) == 0 {
+					continue
 				}
 				msg := o.dc.name + ":"
 				if len(miss) > 0 {
@@ -444,7 +479,7 @@ func checkC15(c *Check) {
 				bad = append(bad, msg)
 			}
 		}
-		rule := map[string]string{"left recursion": "R-left-recursion", "undefined / unused": "R-undefined-unused", "duplicate definition": "R-duplicate"}[gname]
+		rule := map[string]string{"left recursion": "R-left-recursion", "undefined / unused": "R-undefined-unused", "duplicate definition": "R-duplicate", "random grammars": "R-diagnostics-exact"}[gname]
 		construct := "Compile diagnostics/" + gname
 		switch {
 		case len(bad) > 0:
@@ -616,4 +651,114 @@ func strictRule(c *Check, r *Repo) {
 	c.Decide(len(bad) == 0 && nOut >= 1 && nErr >= 1, "R-strict", "Compile/-strict turns warnings into failure before anything is written", r.pos(f.Pos()),
 		fmt.Sprintf("%d write(s) to out and %d print(s) to stderr examined on all acyclic paths: Strict∧warning ⇒ error returned, nothing written; ¬Strict∧warning ⇒ warning printed; no warning ⇒ stderr untouched", nOut, nErr),
 		strings.Join(uniq(bad), "; "))
+}
+
+// randomDiagCases draws small grammars: rules A, B, (C) whose bodies combine all
+// operators over names (defined, undefined), terminals and opaque children.
+func randomDiagCases(seed int64, n int) []diagCase {
+	rng := rand.New(rand.NewSource(seed))
+	var gen func(depth int, names []string) *gexpr
+	gen = func(depth int, names []string) *gexpr {
+		if depth == 0 || rng.Intn(4) == 0 {
+			switch rng.Intn(8) {
+			case 0, 1, 2:
+				return gN(names[rng.Intn(len(names))])
+			case 3:
+				return gC("x")
+			case 4:
+				return gOpq(true)
+			case 5:
+				return gOpq(false)
+			case 6:
+				return gNil()
+			default:
+				return gDot()
+			}
+		}
+		switch rng.Intn(10) {
+		case 0, 1:
+			return gSeq(gen(depth-1, names), gen(depth-1, names))
+		case 2:
+			return gSeq(gen(depth-1, names), gen(depth-1, names), gen(depth-1, names))
+		case 3, 4:
+			return gAlt(gen(depth-1, names), gen(depth-1, names))
+		case 5:
+			return gQ(gen(depth-1, names))
+		case 6:
+			return gStar(gen(depth-1, names))
+		case 7:
+			return gPlus(gen(depth-1, names))
+		case 8:
+			if rng.Intn(2) == 0 {
+				return gAnd(gen(depth-1, names))
+			}
+			return gNot(gen(depth-1, names))
+		default:
+			return gPush(gen(depth-1, names))
+		}
+	}
+	var out []diagCase
+	for i := 0; i < n; i++ {
+		defined := []string{"A", "B"}
+		if rng.Intn(2) == 0 {
+			defined = append(defined, "C")
+		}
+		names := append([]string{}, defined...)
+		if rng.Intn(3) == 0 {
+			names = append(names, "Undef")
+		}
+		var kv []any
+		var descr []string
+		for _, d := range defined {
+			e := gen(2+rng.Intn(2), names)
+			kv = append(kv, d, e)
+			descr = append(descr, d+" <- "+gString(e))
+		}
+		dcase := dc("random grammars", fmt.Sprintf("#%d %s", i, strings.Join(descr, "; ")), kv...)
+		out = append(out, dcase)
+	}
+	return out
+}
+
+func gString(e *gexpr) string {
+	var ks []string
+	for _, k := range e.Kids {
+		ks = append(ks, gString(k))
+	}
+	switch e.Op {
+	case "name":
+		return e.S
+	case "char":
+		return "'" + e.S + "'"
+	case "dot":
+		return "."
+	case "nil":
+		return "()"
+	case "opq":
+		if e.Null {
+			return "e?"
+		}
+		return "e"
+	case "act":
+		return "{}"
+	case "pred":
+		return "&{}"
+	case "seq":
+		return "(" + strings.Join(ks, " ") + ")"
+	case "alt":
+		return "(" + strings.Join(ks, " / ") + ")"
+	case "query":
+		return ks[0] + "?"
+	case "star":
+		return ks[0] + "*"
+	case "plus":
+		return ks[0] + "+"
+	case "and":
+		return "&" + ks[0]
+	case "not":
+		return "!" + ks[0]
+	case "push":
+		return "<" + ks[0] + ">"
+	}
+	return e.Op
 }
